@@ -48,7 +48,7 @@ pub async fn list_operations(input: &Path, colors: &Colors) -> anyhow::Result<()
     table.add_row(row);
   }
 
-  println!("{table}");
+  out!("{table}");
 
   Ok(())
 }
